@@ -236,7 +236,11 @@ def clone(world, shared_memo):
 
 
 class Explorer:
-    def __init__(self, spec, shared=(), max_states=None, resolve_names=True):
+    def __init__(self, spec, shared=(), max_states=None, resolve_names=True, schedule="all"):
+        # schedule: "all" = every enabled event in every state (full interleaving exploration);
+        # "first"/"last" = one canonical schedule (first / last enabled event in sorted order) - the random
+        # answers inside each step are still all expanded. Used for wide instance sweeps.
+        self.schedule = schedule
         self.spec = spec
         self.shared = list(shared) + [spec]
         self.shared_memo = {id(o): o for o in self.shared}
@@ -292,7 +296,7 @@ class Explorer:
         self.seen.add(d0)
         self.stats["states"] += 1
         # stack entries: (world, history(tuple chain), events list, next index)
-        stack = [(world0, None, enabled_events(world0, spec), 0, 0)]
+        stack = [(world0, None, self._pick(enabled_events(world0, spec)), 0, 0)]
         self._end_or_continue(world0, None, stack[0][2], report)
         while stack:
             world, hist, events, idx, depth = stack.pop()
@@ -315,11 +319,20 @@ class Explorer:
                 if self.max_states and self.stats["states"] >= self.max_states:
                     self.capped = True
                     continue
-                evs2 = enabled_events(w2, spec)
+                evs2 = self._pick(enabled_events(w2, spec))
                 self._end_or_continue(w2, h2, evs2, report)
                 if evs2:
                     stack.append((w2, h2, evs2, 0, depth + 1))
         return self.stats
+
+    def _pick(self, events):
+        if self.schedule == "all" or len(events) <= 1:
+            return events
+        if self.schedule == "first":
+            return events[:1]
+        if self.schedule == "last":
+            return events[-1:]
+        raise ValueError(self.schedule)
 
     def _end_or_continue(self, world, hist, events, report):
         if events:
